@@ -79,6 +79,13 @@ def build(case):
             deck.mats.append(M.Material(cel.mat, [('13027', '1')]))
             mats.add(cel.mat)
         cel.rho = f'-{k + 1}.{rng.randint(1, 9)}'
+        roll = rng.random()
+        if roll < 0.25:
+            # very small / large densities: exponents ending in 0
+            cel.rho += rng.choice(['e-10', 'e-20', 'E-10', 'e+10', 'e-1',
+                                   'e-30', 'e1'])
+        elif roll < 0.35:
+            cel.rho = f'-{k + 1}.0' + rng.choice(['e-10', 'e-2', 'e+1'])
     if mode == 'void-mix':
         for cel in rng.sample(solid, max(1, len(solid) // 3)):
             cel.mat, cel.rho = 0, None
